@@ -1,6 +1,7 @@
 """C02 -- Learner1D: ask places new points where they most reduce the worst loss.
 
-proof          : coq/theories/Props/C02.v about `ask_points` of Model/L1D.v (generic number structure)
+proof          : coq/theories/Props/C02.v about `ask_points`/`ask` of Model/L1D.v, for every well-formed state and every n
+                 (generic number structure with explicit laws; closed for exact rationals; greedy exchange lemma + refinement)
 correspondence : Model/L1D.v executed with IEEE doubles vs the real Learner1D.ask, bit for bit (every returned point and
                  improvement), on ask-heavy histories: probe asks `ask(n, tell_pending=False)` after every state change
 search         : from-scratch oracle on the real class written from the property text (count, distinct, in domain, fresh,
@@ -20,10 +21,22 @@ from .. import impl_l1d as I
 from ..core import Check
 
 # --------------------------------------------------------------------------------------------------
-# THEOREMS filled in by the proof builder (name -> logical path of the stating module)
-THEOREMS = {n: "Props.C02" for n in []}
-VO_TARGETS = ["theories/Run/L1DRun.vo"]        # proof builder: add "theories/Props/C02.vo"
-LEGAL_FN = None                                 # optional Coq-side well-formedness predicate `case -> bool`
+# theorems of coq/theories/Props/C02.v (proofs in Proofs/L1DAskProofs.v); name -> logical path of the stating module
+THEOREMS = {n: "Props.C02" for n in [
+    "C02_greedy_minimises_max",            # abstract exchange lemma (DESIGN A.2)
+    "C02_wf_executable", "C02_wf_from_structure",
+    "C02_count", "C02_bounds_first", "C02_missing_spec", "C02_empty_uniform", "C02_empty_uniform_exact",
+    "C02_equal_subdivision", "C02_intervals",
+    "C02_loop_is_greedy",                  # refinement: ask_loop is the greedy process
+    "C02_optimal",                         # under key_antitone
+    "C02_fresh_distinct_in_domain",        # under LinLaws (exact arithmetic)
+    "C02_commit_pending",
+    "C02_laws_inhabited", "C02_xq_key_form", "C02_xq_optimal", "C02_xq_fresh_distinct_in_domain",   # closed for exact rationals
+    "C02_example_ok", "C02_example_answer"]}
+VO_TARGETS = ["theories/Props/C02.vo", "theories/Run/L1DRun.vo", "theories/Run/L1DAskRun.vo"]
+# Coq-side: every state at which the case asks satisfies the hypothesis [wfb] of the theorems (non-vacuity measure)
+LEGAL_FN = "wf_case"
+PREAMBLE = I.PREAMBLE.replace("Run.L1DRun.", "Run.L1DRun Run.L1DAskRun.")
 # --------------------------------------------------------------------------------------------------
 
 INF = math.inf
@@ -620,7 +633,7 @@ def run(chk: Check) -> int:
             f"({tot['brute']} also by brute force), failures {len(chk.failures)}")
     # ------------------------------------------------------------------ correspondence (comparison inside Coq)
     shard = 4     # small shards: ~1 GB per coqc at most
-    mism, legal, errors = chk.coq_cases("cases", I.PREAMBLE, "case", cases, "check", LEGAL_FN, shard=shard)
+    mism, legal, errors = chk.coq_cases("cases", PREAMBLE, "case", cases, "check", LEGAL_FN, shard=shard)
     mism, legal, errors = retry_killed(chk, shard, mism, legal, errors)
     for e in errors:
         chk.broke("correspondence", "Model/L1D.v cases could not be evaluated", e[-600:])
@@ -655,7 +668,10 @@ def run(chk: Check) -> int:
         "oracle_violated_clauses_all": tot["clauses"],
         "cases_compared_in_coq": len(cases), "mismatches": len(mism), "exhaustive": False})
     if LEGAL_FN:
+        # cases in which EVERY state at which ask was called satisfies the theorems' hypothesis wfb (evaluated in Coq)
         chk.extra["cases_legal_in_coq"] = legal
+        chk.extra["cases_all_asked_states_wf_in_coq"] = f"{legal}/{len(cases)}"
+        chk.log(f"theorem hypothesis wfb holds at every asked state in {legal}/{len(cases)} cases (evaluated in Coq)")
     chk.log(f"correspondence: {len(cases)} cases, {len(mism)} mismatches; oracle failures {len(chk.failures)}; {feats}")
     return chk.finish(
         rule="histories generated by driving the real Learner1D (8 function shapes, 5 bounds, 7 shipped losses, factor 1 or 2; "
